@@ -223,7 +223,7 @@ URL_TEXT = ["a", "b", "1", "x", "tok", "s3cr3t", "p w", "a&b", "a=b", "100%", "a
 
 
 def rand_url(rng):
-    userinfo = rng.choice([None, None, "user", "user:pass", "u:p@ss", "@", "", ":", "a@b@c", "\u4e2d:\u6587", "u:p%40x"])
+    userinfo = None if rng.random() < 0.5 else rng.choice(["user", "user:pass", "u:p@ss", "@", "", ":", "a@b@c", "\u4e2d:\u6587", "u:p%40x"])
     host = rng.choice(["127.0.0.1", "example.com", "localhost:8080", "h", "EXAMPLE.com:1"])
     netloc = host if userinfo is None else f"{userinfo}@{host}"
     path = rng.choice(["", "/", "/api/items", "/a;token=1", "/a%20b", "/token/secret"])
@@ -531,7 +531,6 @@ def stage_prepare_request(chk, n):
             mod = {"raises": type(exc).__name__}
         if impl != mod:
             chk.disagree("prepare_request(sanitize) + requests prepare vs Model_C15.curl_view", parts, impl, mod)
-            continue
         # oracle on the implementation: the code sample must not contain what the property calls secret
         if parts["sanitize"]:
             cmd = make_case(parts).as_curl_command(headers=parts["given"] or None)
